@@ -47,6 +47,8 @@ def _raw_programs(N: int, max_special: int, min_special: int, kinds: t.Sequence[
                 s2 = s1 + (p2 is not None and p2[0] != 'in')
                 if s2 > max_special:
                     continue
+                if p2 is not None and p1[0] == 'switch' and p2[0] == 'switch':
+                    p2 = ('switch', dict(p2[1], name=p2[1]['name'] + 'q'))      # two marks of one consumer: two names
                 ps = [['p', p1[0], p1[1]]] + ([['q', p2[0], p2[1]]] if p2 else [])
                 yield from rec_build(k + 1, dict(nodes, **{names[k]: {'params': ps}}), s2)
 
@@ -95,12 +97,16 @@ def _canon_key(spec: dict) -> str:
 
 
 def programs(N: int, max_special: int = 1, min_special: int = 0, kinds: t.Sequence[str] = ('oneof', 'switch', 'rec'),
-             rec_max: int = 2, overlap: bool = False, dedupe: bool = True) -> t.List[dict]:
+             rec_max: int = 2, overlap: bool = False, dedupe: bool = True, twice: bool = False) -> t.List[dict]:
+    """twice=True: only the role-disjoint programs in which some consumer names one node twice through different edges (a
+    switch case / switch node / candidate that it also takes as a direct Input); twice=False: the others."""
     seen: t.Set[str] = set()
     out = []
     for spec in _raw_programs(N, max_special, min_special, kinds, rec_max):
         st = S.static_tags(spec)
         if bool(st) != overlap:
+            continue
+        if not overlap and S.same_consumer_twice(spec) != twice:
             continue
         if dedupe:
             k = _canon_key(spec)
@@ -157,6 +163,12 @@ def _family(name: str, tier: str) -> t.List[dict]:
         out += switchx(tier)
     elif name == 'recx':
         out += recx(tier)
+    elif name == 'twice':
+        # a consumer that names one node twice: as a case / the switch node / a candidate AND as a direct Input
+        for n in range(4, (5 if q else 6) + 1):
+            out += programs(n, 1, 1, kinds=('switch', 'oneof'), twice=True)
+        # two switches of one consumer that share the switch node and / or a case
+        out += programs(5, 2, 2, kinds=('switch',), twice=True)
     elif name == 'overlap':
         for n in range(3, (4 if q else 5) + 1):
             out += programs(n, 1 if n >= 5 else 2, 0, overlap=True, rec_max=1)
